@@ -22,6 +22,36 @@ type ByteSeq struct {
 	Oct  []*Term // materialised view (len = known length)
 	Open bool    // followed by payload of statically unknown length
 	Pay  []ssa.Value
+	// Parts: for an Open sequence built by append, everything in order — the
+	// octets of Oct, then payload segments and the octets appended after them
+	// (nil: nothing is known beyond Oct / Pay)
+	Parts []bsPart
+}
+
+// bsPart: one octet (oct) or one payload of statically unknown length (seg: the
+// term of the appended value) of an append-built sequence.
+type bsPart struct {
+	oct, seg *Term
+	pos      string
+}
+
+func octParts(oct []*Term, pos string) []bsPart {
+	out := make([]bsPart, 0, len(oct))
+	for _, o := range oct {
+		out = append(out, bsPart{oct: o, pos: pos})
+	}
+	return out
+}
+
+// partsOf: the sequence as parts (octets only when it is closed).
+func (b *ByteSeq) partsOf(pos string) ([]bsPart, bool) {
+	if !b.Open {
+		return octParts(b.Oct, pos), true
+	}
+	if b.Parts == nil {
+		return nil, false
+	}
+	return append([]bsPart(nil), b.Parts...), true
 }
 
 func zeroTerm(t types.Type) *Term {
@@ -78,6 +108,12 @@ func (p *PX) byteSeqOf(v ssa.Value, fr *pxFrame, st *pxState) *ByteSeq {
 		return nil
 	case *ssa.Parameter:
 		return st.bseq[fr.id+regName(x)]
+	case *ssa.FreeVar:
+		// captured by value: the value of the frame that made the closure
+		if bv, bf := p.boundValue(x, fr); bv != ssa.Value(x) {
+			return p.byteSeqOf(bv, bf, st)
+		}
+		return nil
 	case *ssa.Slice:
 		base := p.byteSeqOf(x.X, fr, st)
 		if base == nil {
@@ -138,6 +174,12 @@ func (p *PX) byteSeqOf(v ssa.Value, fr *pxFrame, st *pxState) *ByteSeq {
 			if ia, ok := x.X.(*ssa.IndexAddr); ok && isByteSlice(x.Type()) && !isByteSlice(ia.X.Type()) {
 				// an element of a [][]byte whose cell was filled on this path
 				return st.bseq["mem:"+p.term(ia, fr, st).key]
+			}
+			if _, ok := x.X.(*ssa.FreeVar); ok {
+				// a variable captured by a closure: the cell of the frame that made it
+				if cell, ok := p.cellOf(x.X, fr); ok {
+					return st.bseq[cell]
+				}
 			}
 			if g, ok := x.X.(*ssa.Global); ok {
 				if vals, ok := p.w.globalBytes(g); ok {
@@ -208,7 +250,10 @@ func cloneBytes(m map[string]*ByteSeq) map[string]*ByteSeq {
 			out[k] = c
 			continue
 		}
-		c := &ByteSeq{Open: v.Open, Pay: v.Pay, Oct: append([]*Term(nil), v.Oct...)}
+		c := &ByteSeq{Open: v.Open, Pay: v.Pay, Oct: append([]*Term(nil), v.Oct...), Parts: append([]bsPart(nil), v.Parts...)}
+		if v.Parts == nil {
+			c.Parts = nil
+		}
 		copied[v] = c
 		out[k] = c
 	}
@@ -226,17 +271,46 @@ func (p *PX) byteCall(x *ssa.Call, fr *pxFrame, st *pxState) {
 			}
 			base := p.byteSeqOf(x.Call.Args[0], fr, st)
 			add := p.byteSeqOf(x.Call.Args[1], fr, st)
-			if base == nil || base.Open {
+			if base == nil {
 				delete(st.bseq, key)
+				return
+			}
+			pos := p.w.instrPos(x)
+			if base.Open {
+				// octets and payloads appended after a payload: kept in order in Parts
+				// (append(out, tag); append(out, chunk...); append(out, tag2) …)
+				parts, ok := base.partsOf(pos)
+				if !ok {
+					delete(st.bseq, key)
+					return
+				}
+				n := &ByteSeq{Oct: append([]*Term(nil), base.Oct...), Open: true, Pay: append([]ssa.Value(nil), base.Pay...)}
+				if add == nil {
+					parts = append(parts, bsPart{seg: p.term(x.Call.Args[1], fr, st), pos: pos})
+					n.Pay = append(n.Pay, x.Call.Args[1])
+				} else if more, ok := add.partsOf(pos); ok {
+					parts = append(parts, more...)
+				} else {
+					delete(st.bseq, key)
+					return
+				}
+				n.Parts = parts
+				st.bseq[key] = n
 				return
 			}
 			n := &ByteSeq{Oct: append(append([]*Term(nil), base.Oct...)), Pay: base.Pay}
 			if add == nil {
 				n.Open = true
 				n.Pay = append(append([]ssa.Value(nil), base.Pay...), x.Call.Args[1])
+				n.Parts = append(octParts(n.Oct, pos), bsPart{seg: p.term(x.Call.Args[1], fr, st), pos: pos})
 			} else {
 				n.Oct = append(n.Oct, add.Oct...)
 				n.Open = add.Open
+				if add.Open {
+					if more, ok := add.partsOf(pos); ok {
+						n.Parts = append(octParts(base.Oct, pos), more...)
+					}
+				}
 			}
 			st.bseq[key] = n
 		case "copy":
@@ -333,10 +407,22 @@ func (p *PX) byteCall(x *ssa.Call, fr *pxFrame, st *pxState) {
 	case "(encoding/binary.bigEndian).AppendUint16", "(binary.bigEndian).AppendUint16", "(encoding/binary.bigEndian).AppendUint32", "(binary.bigEndian).AppendUint32", "(encoding/binary.bigEndian).AppendUint64", "(binary.bigEndian).AppendUint64":
 		n := map[byte]int{'6': 2, '2': 4, '4': 8}[name[len(name)-1]]
 		base := p.byteSeqOf(x.Call.Args[1], fr, st)
-		if base == nil || base.Open {
+		if base == nil {
 			return
 		}
 		v := p.term(x.Call.Args[2], fr, st)
+		if base.Open {
+			parts, ok := base.partsOf(p.w.instrPos(x))
+			if !ok {
+				delete(st.bseq, key)
+				return
+			}
+			for i := 0; i < n; i++ {
+				parts = append(parts, bsPart{oct: windowTerm(v, 8*(n-1-i)), pos: p.w.instrPos(x)})
+			}
+			st.bseq[key] = &ByteSeq{Oct: append([]*Term(nil), base.Oct...), Open: true, Pay: base.Pay, Parts: parts}
+			return
+		}
 		nb := &ByteSeq{Oct: append([]*Term(nil), base.Oct...)}
 		for i := 0; i < n; i++ {
 			nb.Oct = append(nb.Oct, windowTerm(v, 8*(n-1-i)))
@@ -404,6 +490,10 @@ func (p *PX) bufferOf(v ssa.Value, fr *pxFrame, st *pxState) *ByteSeq {
 		return st.bseq[p.reg(fr, x)]
 	case *ssa.Parameter:
 		return st.bseq[fr.id+regName(x)]
+	case *ssa.FreeVar:
+		if bv, bf := p.boundValue(x, fr); bv != ssa.Value(x) {
+			return p.bufferOf(bv, bf, st)
+		}
 	}
 	return nil
 }
